@@ -1,7 +1,7 @@
 (* C03 - Parallel backends see isolated requests; processing is data-race free.
    Only theorem statements, each closed by an exact lemma, and Print Assumptions. *)
 Require Import Verif.Common.Base Verif.Common.Heap.
-Require Import Verif.Model.C03 Verif.Spec.C03 Verif.Proof.C03 Verif.Proof.C03_rf.
+Require Import Verif.Model.C03 Verif.Spec.C03 Verif.Proof.C03 Verif.Proof.C03_rf Verif.Proof.C03_iso.
 
 (* The fork tree of EVERY endpoint configuration (any number of backends, any filter lists,
    GraphQL options, methods, concurrent_calls) and EVERY client request in the scope of the
@@ -75,16 +75,51 @@ Theorem C03_oracle_sound : forall obs race, spec_b obs race = true -> Spec obs r
 Proof. exact spec_b_sound. Qed.
 Print Assumptions C03_oracle_sound.
 
-(* Not proved in general (kept in full; the proved parts are C03_every_interleaving above -
-   every interleaving yields the schedule-free logs - and the per-input evaluation of
-   [model_isolated_b] inside every correspondence case):
-   Theorem C03_isolated : forall cfg q, in_scope cfg q = true -> model_isolated_b cfg q = true.
-   i.e. in the schedule-free semantics every attempt of backend k is sent exactly
-   [sent_seq (solo cfg k) q 0].  Together with C03_every_interleaving this is the value-level
-   solo equality for every stack shape and every schedule.
-   Theorem C03_race_free_classification : forall cfg q, race_free_b cfg q = true <-> in_scope cfg q = true.
-   (the "if" direction is C03_all_configs; "only if" fails for backends whose pipeline stops
-   before touching the body, e.g. two GraphQL query backends whose extractor fails). *)
+(* Value level.  In the schedule-free semantics every attempt of every backend is handed -
+   method, URL with query string, headers, body - exactly what the backend is handed when it
+   is the endpoint's only backend: EVERY configuration (any number of backends, filters,
+   GraphQL options, methods, concurrent_calls), EVERY client request. *)
+Theorem C03_isolated : forall cfg q, model_isolated_b cfg q = true.
+Proof. exact isolated. Qed.
+Print Assumptions C03_isolated.
+
+(* "whatever its siblings are configured to do": what a backend is handed depends on its own
+   configuration and the client request only - the same backend at any position of any two
+   endpoint configurations is handed the same *)
+Theorem C03_siblings_irrelevant : forall cfg cfg' q k k' b s s',
+  nth_error cfg k = Some b -> nth_error cfg' k' = Some b ->
+  In s (sent_seq cfg q k) -> In s' (sent_seq cfg' q k') -> s = s'.
+Proof.
+  intros cfg cfg' q k k' b s s' H H' Hs Hs'.
+  rewrite (sent_independent cfg q k b s H Hs), (sent_independent cfg' q k' b s' H' Hs'). reflexivity.
+Qed.
+Print Assumptions C03_siblings_irrelevant.
+
+(* The full statement, "whatever the interleaving": for every configuration and request in
+   scope, under EVERY interleaving of all goroutines, the goroutine of every attempt of every
+   backend that has run to its end was handed exactly what the backend is handed as the
+   endpoint's only backend.  (tid t in leaf_tids: the goroutine that ends in backend k's http
+   proxy - the branch itself, or one of its concurrent attempts.) *)
+Theorem C03_isolated_every_interleaving : forall cfg q sched s t k b alone,
+  in_scope cfg q = true ->
+  run obj_eqb (init (endpoint_prog cfg q) (init_heap q)) sched = Some s ->
+  In t (pool s) -> rem t = [] ->
+  nth_error cfg k = Some b -> In (tid t) (leaf_tids (List.length cfg) k b) ->
+  In alone (sent_seq (solo cfg k) q 0) ->
+  sent_of_log (log t) = alone.
+Proof. exact isolated_every_interleaving. Qed.
+Print Assumptions C03_isolated_every_interleaving.
+
+(* the executable model satisfies the boolean oracle: its own observations (what every
+   backend is handed in the fan-out and alone) pass spec_b, for every input *)
+Theorem C03_model_meets_oracle : forall cfg q, spec_b (model_obs cfg q) false = true.
+Proof. exact model_meets_oracle. Qed.
+Print Assumptions C03_model_meets_oracle.
+
+(* Not a theorem (kept for the record): C03_race_free_classification :
+   race_free_b cfg q = true <-> in_scope cfg q = true.  The "if" direction is C03_all_configs;
+   "only if" fails for backends whose pipeline stops before touching the body, e.g. two
+   GraphQL query backends whose extractor fails. *)
 
 (* non-vacuity: concrete inputs *)
 Definition ex_plain := {| b_method := "GET"; b_hdrs := ["X-A"]; b_qs := []; b_cc := 1; b_host := "http://h0"; b_path := "/p"; b_gql := None |}.
